@@ -26,9 +26,9 @@ CLAIMED.update({
             "On every path: Accept counts a chunk in once and resolves it once (enqueued or dropped) and reaches no blocking operation; Load/Unload failures reach the dropped accounting; the quota test dominates the write and "
             "saved/gauge effects only follow a nil-error write; zero-length chunks are corrupt; the feeder keeps the chunk in hand exactly on abort; single producer/consumer ownership of both queues; sorted and filtered recovery scan; "
             "capacities and spill threshold share their parameters; a chunk is queued still loaded only through the below-threshold edge of the window test; every resolution callback balances the pending gauge; the persistent gauges move at most once per chunk event and only with the files. Byte equality and the numeric size bound are not decided.", "§4 C03"),
-    "C04": ("static result-use (byte-count) and must-precede rules over the persistence call tree",
+    "C04": ("static result-use (byte-count), must-precede and failure-propagation (path-sensitive nil/non-nil error facts) rules over the persistence call tree",
             "Every write/read syscall of the persistence call tree has its byte count consumed in a loop or short-count test, success is only returned after a checked close, the file is created under a temporary name that no chunk-id matcher accepts "
-            "(evaluated on the constants) and renamed only after write+close, saved-marking only after a nil-error write, zero-length and unmatched files are never forwarded. What the kernel does and fsync ordering are assumed.", "§4 C04"),
+            "(evaluated on the constants) and renamed only after write+close, saved-marking only after a nil-error write, zero-length and unmatched files are never forwarded; no failed call of the persistence tree can be reported as success (path-sensitive in nil/non-nil error facts: shadowed, overwritten or discarded errors). What the kernel does and fsync ordering are assumed.", "§4 C04"),
 })
 
 CLAIMED.update({
@@ -47,7 +47,7 @@ CLAIMED.update({
     "C17": ("static lock-held must-dataflow (guarded-by), must-precede ordering incl. LIFO of defers, who-may-write",
             "Lock discipline and ordering of the reload machinery on all paths: every access to downstream / slots / addresses every dereference of a sink's slot pointer and every call on a sink value taken from a slot is under the RB-mutex (writes of downstream under the write lock); "
             "reload validates before locking, fails without side effects, and under the lock closes sinks, shuts down, renews, re-creates sinks; the loader is swapped only in the completion closure handed out after parse+compatibility succeeded; "
-            "a connection's sink is closed before its descriptor (slot index) is released. The interleavings themselves are not explored (not a linearizability argument).", "§4 C17"),
+            "a connection's sink is closed before its descriptor (slot index) is released (closer signal or direct Close). The interleavings themselves are not explored (not a linearizability argument).", "§4 C17"),
 })
 
 CLAIMED.update({
@@ -59,7 +59,7 @@ CLAIMED.update({
 CLAIMED.update({
     "C16": ("static sibling cross-check (constructor panics ⊆ verifier checks over canonical argument provenance, delegation and enum obligations), panic reachability, nil-guard dominance, section coverage from struct types",
             "For every configuration type (enumerated from the types having VerifyConfig) each check whose failure makes a constructor panic is performed by the verifier on the same configuration value, nested values are verified by delegation, "
-            "switch enumerations agree, no explicit panic is reachable from loading/verification (reviewed invariants aside), optional holders are nil-tested, every section and nested list is verified. "
+            "switch enumerations agree, no explicit panic is reachable from loading/verification (reviewed invariants aside), optional holders are nil-tested, every section and nested list is verified; no check receives a never-assigned (shadowed) variable, no failed check is reported as success, the loading tree itself is index-safe. "
             "It does not decide that accepted configurations process records correctly, nor panics inside third-party libraries.", "§4 C16"),
 })
 
